@@ -23,15 +23,34 @@ def regen_stmts(ctx):
     return []
 
 
+def regen_methods(ctx):
+    """Regenerates lean/Hive/Gen/C11_Methods.lean (harness/c11/methodset, go/ast over the embedding chain set -> *readableSet ->
+    *SerializableOrderedMap -> *OrderedMap): the method set of each type with the DECLARING type and depth of every method, the
+    receiver names and the use each declaring body makes of applyMutex; pinned by C11_methodset_* / C11_applymutex_table."""
+    out = os.path.join(checklib.LEAN, "Hive", "Gen", "C11_Methods.lean")
+    tmp = os.path.join(ctx.scratch, "C11_Methods.lean")
+    args = ["go", "run", "./c11/methodset", tmp, "Hive.Gen.C11Methods", ctx.repo, "ds:set", "ds:readableSet",
+            "ds/serializableorderedmap:SerializableOrderedMap", "ds/orderedmap:OrderedMap"]
+    rc, log = checklib.sh(args, cwd=checklib.HARNESS, timeout=600)
+    if rc != 0 or not os.path.exists(tmp):
+        return [{"kind": "skeleton-extractor", "detail": checklib.tail(log, 20)}]
+    checklib.write_gen(ctx, out, open(tmp).read())
+    return []
+
+
 def regen(ctx):
-    return (regen_skel(ctx) or []) + regen_stmts(ctx)
+    return (regen_skel(ctx) or []) + regen_stmts(ctx) + regen_methods(ctx)
 
 
 def regen_skel(ctx):
     # lock skeletons of the anchored methods, regenerated from the working tree (Hive/Gen/C11_Skel.lean)
     return checklib.regen_skeletons(
         ctx,
-        [SET + m for m in ("Add", "AddAll", "Delete", "DeleteAll", "Apply", "Compute", "Replace", "apply")] +
+        [SET + m for m in ("Add", "AddAll", "Delete", "DeleteAll", "Apply", "Compute", "Replace", "apply", "ReadOnly")] +
+        # the read side of ds.Set (declared on readableSet) and the codec: every method of the regenerated method set has a skeleton
+        ["ds/set_impl.go:readableSet." + m for m in ("HasAll", "ForEach", "Range", "Intersect", "Filter", "Equals", "Any", "Is", "Iterator",
+                                                      "Clone", "ToSlice", "String")] +
+        [SOM + m for m in ("Encode", "Decode")] +
         [OM + m for m in ("Set", "Delete", "Get", "Has", "Clear", "ForEach", "ForEachReverse", "Head", "Tail", "Size", "IsEmpty", "Clone")] +
         # the dictionary layer (ShrinkingMap as the ordered map and SetArithmetic use it) and the shapes of all anchored types
         [SM + "ShrinkingMap." + m for m in ("Set", "Get", "Has", "Compute", "Delete", "Clear", "delete", "shouldShrink", "shrink")] +
@@ -39,7 +58,7 @@ def regen_skel(ctx):
          "ds/serializableorderedmap/serializable_orderedmap.go:type=SerializableOrderedMap", "ds/set_impl.go:type=set",
          "ds/set_impl.go:type=readableSet", "ds/set_impl.go:type=setMutations", "ds/set_impl.go:type=setArithmetic", "ds/set_impl.go:setArithmetic.elementsCollector"],
         extra_methods=["Set", "Delete", "Get", "Has", "Clear", "ToSlice", "ForEach", "ForEachReverse", "Range", "apply", "Size", "Clone",
-                       "delete", "shouldShrink", "shrink", "Compute"])
+                       "delete", "shouldShrink", "shrink", "Compute", "HasAll", "Filter", "AddAll", "PushAll"])
 
 
 SPEC = {
@@ -74,6 +93,13 @@ SPEC = {
         "C11_skeleton_type_OrderedMap", "C11_skeleton_type_Element", "C11_skeleton_type_SerializableOrderedMap",
         "C11_skeleton_type_set", "C11_skeleton_type_readableSet", "C11_skeleton_type_setMutations",
         "C11_skeleton_type_setArithmetic", "C11_skeleton_type_ShrinkingMap", "C11_skeleton_type_Options",
+        "C11_skeleton_set_ReadOnly", "C11_skeleton_readableSet_HasAll", "C11_skeleton_readableSet_ForEach",
+        "C11_skeleton_readableSet_Range", "C11_skeleton_readableSet_Intersect", "C11_skeleton_readableSet_Filter",
+        "C11_skeleton_readableSet_Equals", "C11_skeleton_readableSet_Any", "C11_skeleton_readableSet_Is",
+        "C11_skeleton_readableSet_Iterator", "C11_skeleton_readableSet_Clone", "C11_skeleton_readableSet_ToSlice",
+        "C11_skeleton_readableSet_String", "C11_skeleton_SerializableOrderedMap_Encode", "C11_skeleton_SerializableOrderedMap_Decode",
+        "C11_methodset_set", "C11_methodset_readableSet", "C11_methodset_SerializableOrderedMap", "C11_methodset_OrderedMap",
+        "C11_methodset_applymutex_confined", "C11_applymutex_table", "C11_no_reentrant_applymutex", "C11_methodset_modelled",
     ],
     "trusted_base": [
         "hand-written models Hive/Model/OMap.lean (abstract ordered map, ds.Set, SetMutations, SetArithmetic, byte format), "
